@@ -876,6 +876,8 @@ def _ufunc1(npf, symf, out_dtype=None):
     def f(x, *args, **kw):
         if not _use_shim(x):
             return npf(x, *args, **kw)
+        if hasattr(x, "_sym") and hasattr(x, "_v") and x._sym():
+            x = x._v()                      # numpy.pi handed to a ufunc: the shared symbolic constant, as in arithmetic
         a = asarr(x)
         if isinstance(a, SArr):
             flat = [symf(v) if is_symbolic(v) else _quiet(npf, v) for v in a.flat]
